@@ -6,13 +6,21 @@ def main(pid, path):
     rec = json.load(open(path))
     ctx = vlib.Ctx(pid + "-replay", "quick", 0)
     q = vlib.Query("replay", rec["sources"], entry=rec.get("entry", "harness"), defines=rec.get("defines", []),
-                   native_sources=rec["sources"], native_cxx=rec.get("native_cxx", False), native_flags=rec.get("native_flags", []))
+                   native_sources=rec["sources"], native_cxx=rec.get("native_cxx", False), native_flags=rec.get("native_flags", []),
+                   native_lib_exclude=rec.get("native_lib_exclude"), native_c_sources=rec.get("native_c_sources"))
     q.dir = ctx.wpath("q")
     os.makedirs(q.dir, exist_ok=True)
-    if rec.get("prebuild"):
+    missing = [f for f in rec["sources"] if not os.path.exists(f)]
+    if missing:
+        # generated harness sources live in the work directory of the run that found the violation;
+        # regenerate them by rebuilding the property's queries (no solver run)
         import importlib
         mod = importlib.import_module(pid)
-        mod.prebuild_native(ctx, q, rec)
+        ctx2 = vlib.Ctx(pid, rec.get("tier", "quick"), int(os.environ.get("VERIF_SEED", "0") or 0))
+        mod.build(ctx2)
+        missing = [f for f in rec["sources"] if not os.path.exists(f)]
+        if missing:
+            print("cannot find harness sources: %s" % missing); return 2
     exe, err = ctx.native_build(q)
     if exe is None:
         print("native build failed:\n" + err); return 2
